@@ -15,6 +15,8 @@ pub struct FdOpts {
     pub allow_distinct: bool,
     pub allow_conde: bool,
     pub allow_hidden: bool,
+    /// tree disequalities (`!=`) between FD variables and constants
+    pub allow_neq: bool,
 }
 
 impl FdOpts {
@@ -30,6 +32,7 @@ impl FdOpts {
             allow_distinct: true,
             allow_conde: true,
             allow_hidden: true,
+            allow_neq: false,
         }
     }
 }
@@ -91,6 +94,11 @@ pub fn gen_program(w: &mut Rng, o: &FdOpts) -> Program {
                 let a = operand(w, &mut used);
                 let b = operand(w, &mut used);
                 G::Eq(a, b)
+            }
+            11 if o.allow_neq => {
+                let a = operand(w, &mut used);
+                let b = operand(w, &mut used);
+                G::Neq(a, b)
             }
             _ => G::Ltefd(operand(w, &mut used), operand(w, &mut used)),
         };
@@ -207,6 +215,7 @@ fn count(g: &G, asg: &BTreeMap<VarIx, i64>, q: VarIx) -> Option<u64> {
             }
             b(eval_term(a, asg)? == eval_term(bb, asg)?)
         }
+        G::Neq(a, bb) => b(eval_term(a, asg)? != eval_term(bb, asg)?),
         G::Conj(gs) | G::Fresh(_, gs) => {
             let mut n = 1u64;
             for x in gs {
